@@ -15,6 +15,17 @@ def as_slice(x):
     if v.__class__ is SliceRef or isinstance(v, str): return v
     raise Unsupported(f'as_slice of {v!r}')
 
+def _zi(x): return x.e if x.__class__ is Sym else z3.IntVal(x)
+def _ge(a, b):
+    if a.__class__ is Sym or b.__class__ is Sym:
+        e = z3.simplify(_zi(a) >= _zi(b))
+        return True if z3.is_true(e) else False if z3.is_false(e) else Sym(e)
+    return a >= b
+def _sat_sub(a, b):
+    if a.__class__ is Sym or b.__class__ is Sym:
+        return Sym(z3.simplify(z3.If(_zi(a) >= _zi(b), _zi(a) - _zi(b), z3.IntVal(0))))
+    return max(0, a - b)
+
 def truthy(m, r):
     if r.__class__ is Sym:
         return m.choose([(r.e, True), (z3.Not(r.e), False)])
@@ -429,13 +440,13 @@ MODELS = {
     'slice::last_mut': lambda m, a, r: (lambda s: mk_option(Ref(s.items, s.hi - 1) if s.hi > s.lo else None))(as_slice(a[0])),
     'slice::last': lambda m, a, r: (lambda s: mk_option(Ref(s.items, s.hi - 1) if s.hi > s.lo else None))(as_slice(a[0])),
     'slice::first': lambda m, a, r: (lambda s: mk_option(Ref(s.items, s.lo) if s.hi > s.lo else None))(as_slice(a[0])),
-    'str::len': lambda m, a, r: len(deref(a[0]).encode()),
+    'str::len': lambda m, a, r: (lambda v: v.symlen if hasattr(v, 'symlen') else len(v.encode()))(deref(a[0])),
     'methods::len_utf8': lambda m, a, r: Sym(z3.simplify(SymStr.len_utf8(a[0].e))) if a[0].__class__ is Sym else len(chr(a[0]).encode()),
     'str::char_indices': lambda m, a, r: IterObj('sym_char_indices', deref(a[0]), 0) if deref(a[0]).__class__ is SymStr else IterObj('char_indices_concrete', deref(a[0]), 0),
     'str::is_empty': lambda m, a, r: len(deref(a[0])) == 0,
     'num::to_le_bytes': lambda m, a, r: Agg('array', None, [(a[0] >> (8 * i)) & 255 for i in range(8)]),
     'num::from_le_bytes': lambda m, a, r: sum(b << (8 * i) for i, b in enumerate(a[0].f)),
-    'num::saturating_sub': lambda m, a, r: max(0, a[0] - a[1]),
+    'num::saturating_sub': lambda m, a, r: _sat_sub(a[0], a[1]),
     'num::checked_sub': lambda m, a, r: mk_option(a[0] - a[1] if a[0] >= a[1] else None),
     'Ord::min': lambda m, a, r: min(a[0], a[1]),
     'Ord::max': lambda m, a, r: max(a[0], a[1]),
@@ -510,7 +521,7 @@ MODELS = {
     'mem::forget': lambda m, a, r: UNIT,
     'Range::len': lambda m, a, r: max(0, deref(a[0]).f[1] - deref(a[0]).f[0]),
     'ExactSizeIterator::len': lambda m, a, r: it_len(iter_arg(m, a[0])) if not (deref(a[0]).__class__ is Agg) else max(0, deref(a[0]).f[1] - deref(a[0]).f[0]),
-    'Range::is_empty': lambda m, a, r: deref(a[0]).f[0] >= deref(a[0]).f[1],
+    'Range::is_empty': lambda m, a, r: _ge(deref(a[0]).f[0], deref(a[0]).f[1]),
     'Range::contains': lambda m, a, r: deref(a[0]).f[0] <= deref(a[1]) < deref(a[0]).f[1],
     'size_hint': lambda m, a, r: Agg('tuple', None, [0, mk_option(None)]),
 }
